@@ -81,3 +81,21 @@ Theorem C13_step_list_union : forall (lists : list (list (nat * nat))) acc p,
   In p (fold_left add_new lists acc) <-> In p acc \/ exists l, In l lists /\ In p l.
 Proof. exact merged_steps_In. Qed.
 Print Assumptions C13_step_list_union.
+
+(* Patterns with duplicate entries (a scipy COO value may repeat a position; its dense view sums the
+   duplicates): with the repaired store the dense view of the stored values is the approximated
+   matrix on the pattern and zero elsewhere, for EVERY pattern, size and matrix ... *)
+Theorem C13_dedup_store_dense_sum : forall pat ncols (M : nat -> nat -> Q) r c,
+  c < ncols ->
+  (dense_sum pat (store_all true pat (matrix_cols M ncols) (map (fun _ => 0%Q) pat)) r c ==
+   if in_pat pat r c then M r c else 0)%Q.
+Proof. exact dedup_store_dense_sum. Qed.
+Print Assumptions C13_dedup_store_dense_sum.
+
+(* ... whereas the store of the source before fix_4.diff multiplies a duplicated entry. *)
+Theorem C13_dup_store_present_refuted :
+  exists pat ncols (M : nat -> nat -> Q) r c,
+    c < ncols /\ in_pat pat r c = true /\
+    ~ (dense_sum pat (store_all false pat (matrix_cols M ncols) (map (fun _ => 0%Q) pat)) r c == M r c)%Q.
+Proof. exact dup_store_present_refuted. Qed.
+Print Assumptions C13_dup_store_present_refuted.
